@@ -27,15 +27,15 @@ CONSTANTS Q, MaxLen, Emit
 
 Ops == {"Add", "Sub", "Mul", "Neg", "Div", "Inverse", "Reduce", "MulConst3", "Select", "Mux3", "Lookup2", "Sum3", "AddChain", "Sqr", "IsZeroSel",
         "SqrtSq", "Exp", "CanonBits", "Bits", "AssertEq", "AssertDiff", "LeqStrict", "ReduceStrict", "MulNR", "Eval2",
-        "ModMulB", "ModAddB", "ModExpB"}
-Arity(op) == CASE op \in {"Neg", "Inverse", "Reduce", "MulConst3", "AddChain", "Sqr", "SqrtSq", "CanonBits", "Bits", "ReduceStrict"} -> 1
+        "ModMulB", "ModAddB", "ModExpB", "LookupOvf", "ModAddChain"}
+Arity(op) == CASE op \in {"Neg", "Inverse", "Reduce", "MulConst3", "AddChain", "Sqr", "SqrtSq", "CanonBits", "Bits", "ReduceStrict", "ModAddChain"} -> 1
                [] op \in {"Add", "Sub", "Mul", "Div", "Select", "IsZeroSel", "Exp", "AssertEq", "AssertDiff", "LeqStrict", "MulNR", "Eval2",
-                          "ModMulB", "ModAddB", "ModExpB"} -> 2
+                          "ModMulB", "ModAddB", "ModExpB", "LookupOvf"} -> 2
                [] op \in {"Mux3", "Sum3"} -> 3
                [] op = "Lookup2" -> 4
 \* variable-modulus operations (modulus = the witness b) are defined on the integer values of their operands, and the
 \* exponent of Exp is used as an integer: these positions only take inputs (whose integer value the program fixes), not temporaries
-RawOperand(op, pos) == op \in {"ModMulB", "ModAddB", "ModExpB"} \/ (op = "Exp" /\ pos = 2)
+RawOperand(op, pos) == op \in {"ModMulB", "ModAddB", "ModExpB", "ModAddChain"} \/ (op = "Exp" /\ pos = 2)
 
 Inv(x) == CHOOSE y \in 0..(Q - 1) : (x * y) % Q = 1
 IsQR(x) == \E y \in 0..(Q - 1) : (y * y) % Q = x
@@ -76,6 +76,10 @@ Eval(op, a, sel, m) ==
     [] op = "AssertDiff" -> IF c[1] # c[2] THEN V(c[1]) ELSE Fail
     [] op = "LeqStrict" -> IF c[1] <= c[2] THEN V(c[1]) ELSE Fail       \* AssertIsLessOrEqual(ReduceStrict(x), ReduceStrict(y))
     \* variable modulus: result congruent modulo m to the integer result; v carries the canonical residue modulo m
+    \* table x, 2x, 4x, 8x built with unreduced additions (entries of different tracked overflow), then (y - entry) * y
+    [] op = "LookupOvf" -> V((c[2] + Q * 8 - (2 ^ (sel % 4)) * c[1]) * c[2])
+    \* acc = x; 200 times acc = ModAdd(x, acc, b): the overflow bookkeeping forces variable-modulus reductions on the way
+    [] op = "ModAddChain" -> IF m = 0 THEN Unspec ELSE [ok |-> TRUE, un |-> FALSE, v |-> (201 * a[1]) % m]
     [] op = "ModMulB" -> IF m = 0 THEN Unspec ELSE [ok |-> TRUE, un |-> FALSE, v |-> (a[1] * a[2]) % m]
     [] op = "ModAddB" -> IF m = 0 THEN Unspec ELSE [ok |-> TRUE, un |-> FALSE, v |-> (a[1] + a[2]) % m]
     [] op = "ModExpB" -> IF m = 0 \/ (a[1] = 0 /\ a[2] = 0) THEN Unspec ELSE [ok |-> TRUE, un |-> FALSE, v |-> PowMod(a[1] % m, a[2], m)]
@@ -93,7 +97,7 @@ ChooseOperand ==
   /\ \E r \in Refs(Len(prog)) :
        /\ (RawOperand(cur.op, Len(cur.a) + 1) => r.k # "t")
        \* the result of a variable-modulus operation is only defined modulo b: it is checked, not reused
-       /\ (r.k = "t" => prog[r.i + 1].op \notin {"ModMulB", "ModAddB", "ModExpB"})
+       /\ (r.k = "t" => prog[r.i + 1].op \notin {"ModMulB", "ModAddB", "ModExpB", "ModAddChain"})
        /\ LET c2 == [cur EXCEPT !.a = Append(cur.a, r)] IN
           IF Len(c2.a) = Arity(c2.op) THEN prog' = Append(prog, c2) /\ cur' = NoCur ELSE cur' = c2 /\ UNCHANGED prog
   /\ UNCHANGED done
@@ -118,6 +122,28 @@ Finish == /\ Len(prog) = MaxLen /\ cur = NoCur /\ ~done /\ done' = TRUE /\ UNCHA
           /\ (IF Emit THEN PrintT("BEH" \o ToJson([prog |-> prog, q |-> Q, probes |-> Probes])) ELSE TRUE)
 Next == ChooseOp \/ ChooseOperand \/ Finish
 Spec == Init /\ [][Next]_vars
+
+(* ---- targeted programs: operation chains that steer the overflow bookkeeping and the canonical-form checks ---- *)
+RA == [k |-> "a"]  RB == [k |-> "b"]  ROne == [k |-> "one"]  RT(i) == [k |-> "t", i |-> i]
+I1(op, x) == [op |-> op, a |-> <<x>>]
+I2(op, x, y) == [op |-> op, a |-> <<x, y>>]
+Targets == {
+  <<I2("Mul", RA, RB), I1("CanonBits", RT(0))>>,
+  <<I2("Add", RA, RB), I1("CanonBits", RT(0))>>,
+  <<I2("Sub", RA, RA), I2("IsZeroSel", RT(0), ROne)>>,
+  <<I2("Add", RA, RB), I2("IsZeroSel", RT(0), RB)>>,
+  <<I2("Mul", RA, RB), I2("IsZeroSel", RT(0), ROne)>>,
+  <<I1("AddChain", RA), I2("IsZeroSel", RT(0), RB)>>,
+  <<I2("LookupOvf", RA, RB)>>,
+  <<I2("LookupOvf", RB, RA)>>,
+  <<I1("AddChain", RA), I2("LookupOvf", RT(0), RB)>>,
+  <<I1("ModAddChain", RA)>>,
+  <<I1("AddChain", RA), I2("Sub", RB, RT(0)), I2("Mul", RT(1), RB)>>,
+  <<I1("AddChain", RA), I1("Neg", RT(0)), I2("AssertDiff", RT(1), ROne)>> }
+InitT == prog \in Targets /\ cur = NoCur /\ done = FALSE
+FinishT == /\ ~done /\ done' = TRUE /\ UNCHANGED <<prog, cur>>
+           /\ (IF Emit THEN PrintT("BEH" \o ToJson([prog |-> prog, q |-> Q, probes |-> Probes])) ELSE TRUE)
+SpecT == InitT /\ [][FinishT]_vars
 
 \* field axioms on the toy modulus: the semantics itself is sane
 InvOK == \A x \in 1..(Q - 1) : (x * Inv(x)) % Q = 1
